@@ -418,12 +418,20 @@ func checkRunUntil(ctx *Ctx) {
 	case cond == nil:
 		fail("budget", "the loop header does not end in a comparison")
 		okAll = false
-	case !((cond.Op == token.LSS && cond.X == counter && cond.Y == budget) || (cond.Op == token.GTR && cond.Y == counter && cond.X == budget)):
-		fail("budget", "the loop condition is not cycles < maxCycles: "+cond.String())
-		okAll = false
-	case !L.Body[L.Header.Succs[0]] || L.Body[L.Header.Succs[1]]:
-		fail("budget", "the budget test does not leave the loop when it fails")
-		okAll = false
+	default:
+		// the header stays in the loop exactly when cycles < maxCycles, whichever way the
+		// test is written: `cycles < max` / `max > cycles` continuing on the true edge, or
+		// `cycles >= max` / `max <= cycles` leaving on the true edge (`for { if .. break }`)
+		cont := (cond.Op == token.LSS && cond.X == counter && cond.Y == budget) || (cond.Op == token.GTR && cond.Y == counter && cond.X == budget)
+		leave := (cond.Op == token.GEQ && cond.X == counter && cond.Y == budget) || (cond.Op == token.LEQ && cond.Y == counter && cond.X == budget)
+		switch {
+		case !cont && !leave:
+			fail("budget", "the loop condition is not cycles < maxCycles: "+cond.String())
+			okAll = false
+		case cont && (!L.Body[L.Header.Succs[0]] || L.Body[L.Header.Succs[1]]), leave && (L.Body[L.Header.Succs[0]] || !L.Body[L.Header.Succs[1]]):
+			fail("budget", "the budget test does not leave the loop when it fails")
+			okAll = false
+		}
 	}
 	// counter advance
 	for i, e := range counter.Edges {
